@@ -265,3 +265,8 @@ func lenOf(s any) int { return reflect.ValueOf(s).Len() }
 func sliceTo(s any, n int) any { return reflect.ValueOf(s).Slice(0, n).Interface() }
 
 func indexOf(s any, i int) any { return reflect.ValueOf(s).Index(i).Interface() }
+
+const time3 = time.Minute
+
+// safely runs f and returns a description if it panicked.
+func safely(f func()) string { return world.Safely(f) }
